@@ -201,6 +201,10 @@ func readListCmd(dec *imapwire.Decoder) (ref string, patterns []string, options 
 func readListMailbox(dec *imapwire.Decoder) (string, error) {
 	var mailbox string
 	if !dec.String(&mailbox) {
+		if dec.Err() != nil {
+			// A literal has been refused
+			return "", dec.Err()
+		}
 		if !dec.Expect(dec.Func(&mailbox, isListChar), "list-char") {
 			return "", dec.Err()
 		}
